@@ -44,6 +44,8 @@ HUGE = 1 << 40
 
 def _gen_content(rng, kind_bias=None):
     n = content.size_class(rng)
+    if rng.chance(1, 150):
+        return {"t": "pattern", "n": (1 << 20) + rng.choice([1, 4097, 70000]), "mul": 7, "add": 3, "seed": 0}
     t = rng.weighted([(60, "text"), (22, "binnl"), (12, "bin"), (6, "pattern")])
     spec = {"t": t, "n": n, "seed": rng.u64() >> 16}
     if t == "text":
@@ -346,9 +348,11 @@ def render_read(model):
         if op["op"] == "read":
             lines.append("let r = read(h%d, %d);" % (h, op["n"]))
             lines.append(script.obs_bytes(k))
+            lines.append("if !is_error(r) { push(r, byte(%d)); }" % (k % 251))   # every result is the caller's own array
         elif op["op"] == "readall":
             lines.append("let r = read(h%d);" % h)
             lines.append(script.obs_bytes(k))
+            lines.append("if !is_error(r) { push(r, byte(%d)); }" % (k % 251))
         elif op["op"] == "loop":
             lines.append('let go = true; let cnt = 0; while go { let r = read(h%d, %d); cnt = cnt + 1; if is_error(r) { eprintln("#%d E {}", r); go = false; } else '
                          '{ if len(r) == 0 { eprintln("#%d Z {}", cnt); go = false; } else { eprintln("#%d A {} {}", len(r), r); } } if cnt > 100000 { go = false; } }' % (h, op["n"], k, k, k))
